@@ -780,6 +780,16 @@ func (r *Replica) Restore(ctx context.Context, opt RestoreOptions) (err error) {
 		return err
 	}
 
+	// In follow mode publish the TXID sidecar before the database so that a
+	// crash between the two never leaves a database without its sidecar, which
+	// crash recovery cannot resume from. A sidecar without a database is
+	// harmless: the next start restores from scratch and rewrites it.
+	if opt.Follow {
+		if err := WriteTXIDFile(opt.OutputPath, infos[len(infos)-1].MaxTXID); err != nil {
+			return fmt.Errorf("write initial txid file: %w", err)
+		}
+	}
+
 	// Copy file to final location.
 	r.Logger().Debug("renaming database from temporary location")
 	if err := os.Rename(tmpOutputPath, opt.OutputPath); err != nil {
